@@ -1249,7 +1249,13 @@ func c08Envoy(exec rule.Executor, host, raw, query string) (out c08Out) {
 		}
 	}()
 
+	// envoy hands over the request target (path and query) in the path attribute; heimdall also accepts the
+	// query in the query attribute (fix: commit 9fe653a).  Both forms are used.
 	hr := &envoy_auth.AttributeContext_HttpRequest{Method: "GET", Scheme: "http", Host: host, Path: raw, Query: query}
+	if query != "" && len(raw)%2 == 0 {
+		hr.Path, hr.Query = raw+"?"+query, ""
+	}
+
 	ctx := grpcv3.NewRequestContext(zerolog.Nop().WithContext(context.Background()), &envoy_auth.CheckRequest{
 		Attributes: &envoy_auth.AttributeContext{Request: &envoy_auth.AttributeContext_Request{Http: hr}},
 	})
@@ -1333,6 +1339,158 @@ func TestVerifC08Envoy(t *testing.T) {
 
 	for i := 0; i < n; i++ {
 		emit("generated", c08Gen(root.Fork(uint64(i))))
+	}
+}
+
+// ---- delivery through X-Forwarded-Uri ----------------------------------------------
+//
+// Decision mode behind a proxy (Traefik forwardAuth, nginx auth_request): the proxy asks heimdall at its own
+// path and hands the original request target over in X-Forwarded-Uri; requestcontext.extractURL parses it with
+// url.Parse.  The stream uses targets whose path starts with exactly one '/' and has no '#'.
+
+const c08OwnPath = "/zz-own"
+
+func (s *c08Server) sendXfu(host, raw, query string) c08Out {
+	conn, err := (&net.Dialer{}).DialContext(context.Background(), "tcp", s.srv.Listener.Addr().String())
+	if err != nil {
+		return c08Out{Kind: "other", Err: err.Error()}
+	}
+	defer conn.Close()
+
+	_ = conn.SetDeadline(time.Now().Add(60 * time.Second))
+
+	target := raw
+	if query != "" {
+		target += "?" + query
+	}
+
+	s.last.Store(nil)
+	fmt.Fprintf(conn, "GET %s HTTP/1.1\r\nHost: %s\r\nX-Forwarded-Uri: %s\r\nConnection: close\r\n\r\n", c08OwnPath, host, target)
+
+	resp, err := http.ReadResponse(bufio.NewReader(conn), nil)
+	if err != nil {
+		return c08Out{Kind: "other", Err: err.Error()}
+	}
+	defer resp.Body.Close()
+
+	body, _ := io.ReadAll(resp.Body)
+	out := s.last.Load()
+
+	switch {
+	case resp.StatusCode == http.StatusBadRequest && out == nil:
+		return c08Out{Kind: "badrequest"}
+	case resp.StatusCode != http.StatusOK || out == nil:
+		return c08Out{Kind: "other", Err: fmt.Sprintf("status %d: %s", resp.StatusCode, body)}
+	}
+
+	return *out
+}
+
+func c08XfuInScope(raw string) bool {
+	return strings.HasPrefix(raw, "/") && !strings.HasPrefix(raw, "//") && !strings.ContainsAny(raw, "#?") &&
+		raw == strings.TrimSpace(raw)
+}
+
+func c08XfuCorpus() []c08Case {
+	up := &c08Backend{Host: "up.example.com:8080"}
+	own := c08Rule{ID: "own", Setting: "on", Backend: up, Routes: []c08Route{{Pat: []c08Seg{{"lit", "zz-own"}}}}}
+	admin := c08Rule{ID: "admin", Setting: "off", Backend: up, Routes: []c08Route{{Pat: []c08Seg{{"lit", "admin"}, {"wild", "x"}}}}}
+
+	return []c08Case{
+		// C08-F6: a malformed escape makes heimdall decide about the proxy's own path instead
+		{Rules: nil, Default: true, Host: "h", Raw: "/a%2Fb%zz", Raw2: "/a%2Fb%zz"},
+		{Rules: []c08Rule{own, admin}, Host: "h", Raw: "/admin/secret%", Raw2: "/admin/secret"},
+		{Rules: []c08Rule{own, admin}, Host: "h", Raw: "/admin/a%2Fb", Raw2: "/%61dmin/a%2fb", Query: "b=2&a=%zz&a=1"},
+	}
+}
+
+func TestVerifC08Xfu(t *testing.T) {
+	w := vf.NewWriter()
+	defer w.Close()
+
+	srv := c08NewServer()
+	defer srv.srv.Close()
+
+	root := vf.NewRand(vf.Seed() + 0xf08)
+	n := vf.N(400)
+	idx := 0
+
+	emit := func(stream string, c c08Case) {
+		if vf.Want(idx) {
+			exec, err := c08Build(c)
+			if err != nil {
+				t.Fatalf("case %d: rule set not loadable: %q (%q)", idx, err, fmt.Sprintf("%+v", c))
+			}
+
+			srv.exec.Store(&exec)
+
+			o := c08Obs{A: srv.sendXfu(c.Host, c.Raw, c.Query), B: srv.sendXfu(c.Host, c.Raw2, c.Query)}
+
+			exec2, err := c08Build(c)
+			if err != nil {
+				t.Fatalf("case %d: rule set not loadable: %q", idx, err)
+			}
+
+			srv.exec.Store(&exec2)
+
+			for _, tw := range c08Twins(c.Raw) {
+				if c08XfuInScope(tw) {
+					srv.sendXfu(c.Host, tw, "")
+				}
+			}
+
+			b2 := srv.sendXfu(c.Host, c.Raw2, c.Query)
+			a2 := srv.sendXfu(c.Host, c.Raw, c.Query)
+			o.Stable = c08SameOut(o.A, a2) && c08SameOut(o.B, b2)
+
+			if o.A.Kind == "other" || o.B.Kind == "other" {
+				t.Fatalf("case %d: unexpected outcome %q for %q", idx, fmt.Sprintf("%+v", o), fmt.Sprintf("%+v", c))
+			}
+
+			tags := c08Tags(c, o)
+			for i := range tags {
+				tags[i] = "c08x:" + strings.TrimPrefix(tags[i], "c08:")
+			}
+
+			if _, err := url.Parse(c.Raw); err != nil {
+				tags = append(tags, "c08x:does-not-parse")
+			}
+
+			w.Put(vf.Obs{
+				I: idx, Stream: stream, In: c, Out: o, Coq: c08Coq(c, o),
+				Nontrivial: (c.Raw != c.Raw2 || c08HasEncSlash(c.Raw)) && len(c.Rules) > 0, Tags: tags,
+			})
+		}
+
+		idx++
+	}
+
+	for _, c := range c08XfuCorpus() {
+		emit("corpus", c)
+	}
+
+	for _, c := range c08Corpus() {
+		if c08XfuInScope(c.Raw) && c08XfuInScope(c.Raw2) {
+			emit("corpus", c)
+		}
+	}
+
+	for i := 0; i < n; i++ {
+		r := root.Fork(uint64(i))
+
+		for {
+			c := c08Gen(r)
+			if c08XfuInScope(c.Raw) && c08XfuInScope(c.Raw2) {
+				// more malformed escapes than in the other streams: they reach heimdall here
+				if r.Chance(10) {
+					c.Raw += vf.Pick(r, c08BadEsc)
+				}
+
+				emit("generated", c)
+
+				break
+			}
+		}
 	}
 }
 
